@@ -24,8 +24,9 @@ class RRSDatagramProtocol(HSTRPDatagramProtocol):
             renew_time_seconds=60 * 5,
         )
         hstrp = HSTRP(
+            # no option block is sent, the option bit says so (peer would read the payload as options)
             pkt_type=HSTRPPacketType(
-                have_options=True,
+                have_options=False,
             ),
             payload=rrs,
             sn=self.hstrp_increment_sn(),
